@@ -6,6 +6,7 @@ package main
 // the model, and the C18 oracles (parse back, decode `serialized`, check the signer's input).
 
 import (
+	"bytes"
 	"context"
 	"encoding/base64"
 	"encoding/json"
@@ -52,6 +53,34 @@ func ceSigner(fail bool, record *[]byte) cloudevents.Signer {
 		// an arbitrary string: a control character, DEL, a quote, a backslash, HTML characters: the stored document is JSON all the same and carries the signer's result
 		return "s\x1f\x7f\"\\<>&" + fmt.Sprintf("sum%dlen%d", sum%65521, len(b)), nil
 	}
+}
+
+// ceVerify is a consumer's check of a stored cloudevents-json document, written with the standard library:
+// parse, take serialized / serialized_hmac, base64url-decode, ask the signer again
+func ceVerify(stored []byte) string {
+	var doc map[string]json.RawMessage
+	if json.Unmarshal(stored, &doc) != nil {
+		return "malformed"
+	}
+	rs, okS := doc["serialized"]
+	rm, okM := doc["serialized_hmac"]
+	if !okS && !okM {
+		return "notSigned"
+	}
+	var ser, mac string
+	if !okS || !okM || json.Unmarshal(rs, &ser) != nil || json.Unmarshal(rm, &mac) != nil {
+		return "malformed"
+	}
+	u, err := base64.RawURLEncoding.Strict().DecodeString(ser)
+	if err != nil {
+		return "malformed"
+	}
+	var rec []byte
+	want, _ := ceSigner(false, &rec)(context.Background(), u)
+	if want == mac {
+		return "verified"
+	}
+	return "mismatch"
 }
 
 type ceHold struct {
@@ -359,6 +388,27 @@ func ceMain(args []string) {
 		}
 		op := strings.TrimSpace(fmt.Sprintf("ce 0 %s %s %s %d %s %s %s %s %s %s %s %s", srcTok, schTok, fmK, sg, stt, hx([]byte(ty)), hx(ttok), idTok, fresh, pred, dataKind, strings.Join(toks, " ")))
 		o.emit(op, res)
+		if err == nil && got != nil && fcode == 2 && sg != 2 {
+			// what a consumer does with a cloudevents-json document: the model's verifier (M8v, the subject of
+			// C18.signed_verifies) against this one, on the stored document and on one whose signature was altered
+			doc := stored
+			if p.chance(1, 3) && len(doc) > 4 && bytes.Contains(doc, []byte(`"serialized_hmac":`)) {
+				doc = append([]byte(nil), stored...)
+				i := len(doc) - 4 // ...X"}\n
+				if doc[i] == 'X' {
+					doc[i] = 'Y'
+				} else {
+					doc[i] = 'X'
+				}
+			}
+			verdict := ceVerify(doc)
+			st.hit("verify:" + verdict)
+			st.Ops++
+			o.emit("verify "+hx(doc), verdict)
+			if string(doc) == string(stored) && (verdict == "verified") != (sg == 1 && listed) {
+				oracle("C18 a consumer's verification of the stored cloudevents-json document gives %s (signer=%d, type listed=%v)", verdict, sg, listed)
+			}
+		}
 		if err == nil {
 			st.Distinct++
 			if len(st.Samples) < 3 {
